@@ -99,7 +99,7 @@ def valMatches (v : Store.Val) (ob : ObsObj) : Bool :=
 def judgeSnapshot (L : Nat) (store : Store.Store) (obs : List ObsObj) : Option String :=
   let heapLabels := obs.filterMap fun ob => if ob.whereS.startsWith "H" then some ob.whereS else none
   if heapLabels.eraseDups.length != heapLabels.length then some "two objects share a heap block" else
-  if obs.length != store.length then some "set of live objects differs" else
+  if (List.range NOBJ).any (fun o => (store.get o).isSome != obs.any (·.id == o)) then some "set of live objects differs" else
   obs.findSome? fun ob =>
     match store.get ob.id with
     | none => some s!"o{ob.id} should not be alive"
@@ -120,7 +120,7 @@ def handle (c : Case) : Verdict :=
   if ops.length != opStrs.length then { corr := false, why := "unparsable op" } else
   Id.run do
     let mut p := Pool.init L
-    let mut store : Store.Store := []
+    let mut store : Store.Store := Store.Store.empty
     let mut out := ""
     let mut i := 0
     let mut specWhy := ""
